@@ -65,13 +65,17 @@ structure RunSt where
   known : List String := []
   recs : List Rec := []     -- reversed
 
-/-- threaded (Go-order) model -/
-def runThreaded (t0 : Tree) (segs : List Seg) : Agg × Nat :=
-  let r := segs.foldl (fun (s : Tree × Agg × Nat) seg =>
+/-- threaded (Go-order) model: (state file, rejected batches, nondeterminism diagnostic) -/
+def runThreaded (t0 : Tree) (segs : List Seg) : Persisted × Nat × Bool :=
+  let r := segs.foldl (fun (s : (Tree × Agg) × Persisted × Nat) seg =>
     match seg with
-    | Seg.batch rs => let (t, a, f) := stepT s.1 s.2.1 rs; (t, a, s.2.2 + (if f then 1 else 0))
-    | Seg.restart => (t0, restore (persist s.2.1), s.2.2)) (t0, ({} : Agg), 0)
-  (r.2.1, r.2.2)
+    | Seg.batch rs =>
+      if rs.isEmpty then s else
+      let (t, a, f) := stepT s.1.1 s.1.2 rs
+      if f then ((t, a), s.2.1, s.2.2 + 1) else ((t, a), persist a, s.2.2)
+    | Seg.restart => (({ t0 with nondet := s.1.1.nondet }, restore s.2.1), s.2.1, s.2.2))
+    ((t0, ({} : Agg)), persist {}, 0)
+  (r.2.1, r.2.2, r.1.1.nondet)
 
 /-- law instances L1/L3 on the URLs seen so far, for one step of the pure lineage -/
 def lawCheck (t : Tree) (seen urls : List String) : List String :=
@@ -81,22 +85,22 @@ def lawCheck (t : Tree) (seen urls : List String) : List String :=
   let l3 := N.conv t urls || seen.all fun u => N.norm t' u == N.norm t u
   (if l1 then [] else ["L1"]) ++ (if l3 then [] else ["L3"])
 
-/-- pure model (`Model.C15.step` with `treeNormaliser`) + law tests -/
-def runPure (t0 : Tree) (segs : List Seg) : Agg × List String :=
-  let r := segs.foldl (fun (s : (Tree × Agg) × List String × List String) seg =>
+/-- pure model (`Model.C15.runSegs` with `treeNormaliser`) + law tests -/
+def runPure (t0 : Tree) (segs : List Seg) : Persisted × List String :=
+  let r := segs.foldl (fun (s : St Tree × List String × List String) seg =>
     match seg with
     | Seg.batch rs =>
       let urls := (external rs).map (·.url)
-      let bad := if rs.isEmpty || treeNormaliser.fails s.1.1 urls then [] else lawCheck s.1.1 s.2.1 urls
-      (step treeNormaliser s.1.1 s.1.2 rs, s.2.1 ++ urls, s.2.2 ++ bad)
-    | Seg.restart => ((t0, restore (persist s.1.2)), [], s.2.2)) ((t0, ({} : Agg)), [], [])
+      let bad := if rs.isEmpty || treeNormaliser.fails s.1.tree urls then [] else lawCheck s.1.tree s.2.1 urls
+      (stepS treeNormaliser s.1 rs, s.2.1 ++ urls, s.2.2 ++ bad)
+    | Seg.restart => ({ tree := t0, agg := restore s.1.file, file := s.1.file }, [], s.2.2)) (St.init t0, [], [])
   -- L2 (observational): the lineage tree and the one-shot tree normalise every seen URL alike
   let l2 := match r.2.1 with
     | [] => true
     | seen => if segs.any (fun s => match s with | Seg.restart => true | _ => false) then true
               else let one := treeNormaliser.learn t0 seen
-                   seen.all fun u => treeNormaliser.norm one u == treeNormaliser.norm r.1.1 u
-  (r.1.2, r.2.2 ++ (if l2 then [] else ["L2"]))
+                   seen.all fun u => treeNormaliser.norm one u == treeNormaliser.norm r.1.tree u
+  (r.1.file, r.2.2 ++ (if l2 then [] else ["L2"]))
 
 def runStep (s : RunSt) (line : String) : RunSt × String :=
   match words line with
@@ -122,19 +126,21 @@ def runStep (s : RunSt) (line : String) : RunSt × String :=
         let recs := s.recs.reverse
         let segs := segsOf recs cuts restarts
         let full := restarts.isEmpty
-        let (a, fails) := runThreaded t0 segs
-        let (ap, laws) := runPure t0 segs
-        let main := fmtObs full fails (persist a) ""
-        let pure := fmtObs full fails (persist ap) ""
+        let (file, fails, nondet) := runThreaded t0 segs
+        let (filep, laws) := runPure t0 segs
+        let main := fmtObs full fails file ""
+        let pure := fmtObs full fails filep ""
         let tail := (if main == pure then "" else " PURE-DIFF") ++
           (if laws.isEmpty then "" else " LAW-FAIL:" ++ ",".intercalate (dedupS laws))
-        (s, main ++ tail)
+        (s, if nondet then "nondet" else main ++ tail)
     | _, _ => (s, "bad-op")
   | _ => (s, "bad-op")
 
 /-! ### judge -/
 
 structure JudgeSt where
+  thr : Nat := 50
+  known : List String := []
   recs : List Rec := []       -- reversed
   runs : List RunObs := []    -- reversed
   bad : Option String := none
@@ -172,11 +178,17 @@ def parseRunObs (out : String) : Option RunObs :=
 
 def judgeStep (s : JudgeSt) (op out : String) : JudgeSt :=
   match words op with
+  | "cfg" :: ws => { s with thr := (kvNat ws "thr").getD 50 }
+  | "known" :: ws => { s with known := s.known ++ [pctDec ((kv ws "u").getD "")] }
   | "rec" :: ws =>
     match parseRec ws with
     | some r => { s with recs := r :: s.recs }
     | none => { s with bad := some "unparsable-rec" }
   | "run" :: _ =>
+    if out == "err:build" then s   -- the declared endpoints were refused by BuildTree: nothing ran
+    else if out == "nondet" then
+      { s with runs := { full := true, nondet := true, fails := 0, eps := [], ces := [], its := [], avgOk := true } :: s.runs }
+    else
     match parseRunObs out with
     | some o => { s with runs := o :: s.runs }
     | none => { s with bad := some ("unparsable-output:" ++ (pctEnc out).take 120) }
@@ -186,12 +198,13 @@ def judgeFinish (s : JudgeSt) : String :=
   match s.bad with
   | some b => s!"fail - {b}"
   | none =>
-    let c : CaseObs := { recs := s.recs.reverse, runs := s.runs.reverse }
+    let c : CaseObs := { thr := s.thr, known := s.known, recs := s.recs.reverse, runs := s.runs.reverse }
     if holds c then "ok"
     else
       let fid := (finding c).getD "-"
       let why :=
-        if c.runs.any (fun o => o.fails != 0) then "batch-rejected-traffic-lost"
+        if c.runs.any (fun o => o.nondet) then "outcome-depends-on-map-iteration-order"
+        else if c.runs.any (fun o => o.fails != 0) then "batch-rejected-traffic-lost"
         else if c.runs.any (fun o => !o.avgOk) then "float-mean-outside-tolerance"
         else if c.runs.any (fun o => !conserves c.recs o) then "totals-not-conserved"
         else "batch-dependent-statistics"
